@@ -114,7 +114,7 @@ func zzC03(event int) {
 	for i := 0; i < before; i++ {
 		zzC03Op(w, m)
 	}
-	if event == 0 {
+	if event == 0 || event == 2 {
 		peer := rt.Choose("via", n)
 		rt.Assume(peer != x)
 		err := w.nodes[x].Join(w.nodes[peer])
@@ -123,6 +123,15 @@ func zzC03(event int) {
 			return
 		}
 		w.present[x] = true
+		if event == 2 {
+			// ... and the joiner's predecessor leaves at once, before any maintenance round has run
+			p := w.prev(x)
+			rt.Assume(p != x)
+			w.nodes[p].Leave()
+			rt.Assert(w.nodes[p].state.Get() == chord.Left, "leaver-has-left")
+			w.present[p] = false
+			rt.Reach("predecessor-left-right-after-the-join")
+		}
 	} else {
 		w.nodes[x].Leave()
 		rt.Assert(w.nodes[x].state.Get() == chord.Left, "leaver-has-left")
@@ -143,3 +152,6 @@ func zzC03(event int) {
 
 func ZZ_C03_Join()  { zzC03(0) }
 func ZZ_C03_Leave() { zzC03(1) }
+
+// a join immediately followed by the graceful leave of the joiner's predecessor (no maintenance round in between)
+func ZZ_C03_JoinThenPredecessorLeaves() { zzC03(2) }
